@@ -412,9 +412,9 @@ ASSUMPTIONS = [
     'black box: the real 1090 (pipes) and radar (pty) binaries against a fake TCP server on 127.0.0.1',
     "synchronisation is causal, never a sleep: terminal input counts as delivered when /proc/<pid>/io:rchar of the subject grew by the bytes written; feed bytes when the subject's TCP acknowledged them (TIOCOUTQ == 0); a heartbeat (ESC[?25l) counts as emitted after an injection when its offset in the output stream exceeds /proc/<pid>/io:wchar read after the injection; consumed feed lines are bounded by one per such heartbeat",
     'radar timeout gap = (complete lines in the segment + 2) heartbeats emitted after the segment landed, nothing sent meanwhile (the last of them follows a 50 ms read timeout on the partial line)',
-    '1090 timeout gap = 250 ms (5x the read timeout, as specified) AND the subject blocked in recv() 3 more times (voluntary context switches in /proc/<pid>/status)',
+    '1090 timeout gap = 250 ms (5x the read timeout, as specified) AND the subject blocked in recv() 3 more times (voluntary context switches in /proc/<pid>/status), or sits in one blocking recv() for 0.5 s (a subject without a read timeout: the gap is then simply a delay)',
     'radar table oracle = vh feed2table (real decoder + real tracker) on the feed bytes; CRLF line: processed or skipped both accepted',
-    '1090 renderings are compared with a reference run of 1090 itself on each line alone (self-differential)',
+    "1090 renderings are compared with the library's own text rendering of each frame (vh render: real decoder + Display; the rendering itself is judged by C11)",
     '1090 "alive after EOF" is observed 300 ms after the close (a later crash would be missed, never invented)',
     'a violation is reported only if two further replays of the same script give the same observation',
     'outside the bound: >2 cuts, gaps shorter than the read timeout other than 0, feeds other than the 3-line feed, IPv6',
